@@ -40,6 +40,13 @@ func runC13(c *core.Case) {
 	}
 	V := genZoom(r)
 	n := 1 + r.Intn(6)
+	veryLong := r.P(0.0003) || (c.Tier == "thorough" && r.P(0.0003))
+	if veryLong { // 2^15 .. 2^17 + 3 tiles (each maps to one or two vertical indices); the last few tiles are unlike the rest
+		n = veryLongLen(r)
+		E, O = 25, 1<<24
+		V = r.Range(20, 24)
+		c.Tag("very-long-list")
+	}
 	var tiles []c13Tile
 	mk := func() c13Tile {
 		h := genZoom(r)
@@ -74,6 +81,13 @@ func runC13(c *core.Case) {
 	}
 	for len(tiles) < n {
 		t := mk()
+		if veryLong {
+			h := clampI(V+1, 0, 35)
+			vz := V
+			t = c13Tile{h: h, x: r.I64n(pow2(h)), y: r.I64n(pow2(h)), vz: vz, z: pow2(vz)/2 + r.Range(-1000, 1000)}
+			tiles = append(tiles, t)
+			continue
+		}
 		if len(tiles) > 0 {
 			p := tiles[r.Intn(len(tiles))]
 			switch r.Intn(5) {
@@ -120,7 +134,7 @@ func runC13(c *core.Case) {
 			}
 			total += cv.wHi - cv.wLo + 1
 		}
-		if !huge && total <= 5000 {
+		if !huge && (total <= 5000 || (veryLong && total <= 400000)) {
 			break
 		}
 		if V == 0 {
